@@ -13,7 +13,7 @@ RULE = ("cases = record histories of 8..90 records over up to 6 processes: FORK 
 TRUSTED = ["vlib/perfdata.py (perf.data writer) and linux-perf-data's parsing and per-round sorting", "vlib/conv_e2e.py::view (reading out.json back)",
            "times are compared in integer nanoseconds after rounding the JSON's millisecond floats"]
 ASSUMPTIONS = ["the model covers default options; runs with --reuse-threads and / or --fold-recursive-prefix are decided by the model-free specification only (with --reuse-threads on the multiset of sample times, since samples may be merged into earlier entries)",
-               "'no other samples' is only demanded of recordings without context-switch records, as the property says; recordings with CONTEXT_SWITCH records but without sched_switch samples are modelled (they add no samples)", "all record times are >= the SAMPLE_TIME origin"]
+               "'no other samples' is only demanded of recordings without context-switch records, as the property says; recordings with CONTEXT_SWITCH records but without sched_switch samples are modelled (they add no samples)", "all record times are >= the SAMPLE_TIME origin (files without the SAMPLE_TIME feature have origin 0)"]
 _state = {}
 
 
@@ -31,6 +31,8 @@ def gen(tier, rng, scale):
         if rng.chance(1, 3):
             # the main event records no PERF_SAMPLE_PERIOD and / or no PERF_SAMPLE_CPU (e.g. `perf record -c N`): every CPU delta is then 0
             c["layout"] = rng.choice([[True, False], [False, True], [False, False]])
+        if rng.chance(1, 6):
+            c["origin"] = 0          # no SAMPLE_TIME feature in the file: the profile's time origin is 0 and the times stay absolute
         cases.append(c)
     # the same kind of histories converted with --reuse-threads and / or --fold-recursive-prefix (decided by the specification alone)
     frng = rng.fork("flags")
